@@ -86,7 +86,7 @@ def main():
              "kind_free_text": "breadth-first explorer over glob call histories (shared pattern cache states)"}],
         "checks": checks,
         "not_applicable": [{"property_id": p, "reason": extra.get("not_applicable", {}).get(p, PENDING_REASON)} for p in props if p not in claimed],
-        "notes": "All checks are bounded exhaustive explorations of the real code (see DESIGN.md). Each also contains a few fixed inputs that no small-shape enumeration reaches (one deep chain and one wide node per property, positional calls in the released parameter order); these few dozen evaluations are listed separately in the evidence counters (capacity_checks, deep_chain_*, positional_calls). A run whose state discovery hits its size cap is reported as a harness error, never as exhaustive. fix: commits in /repo: bf565aa 12814cc f767247 ef920f5 5a914b0 190c402 6a388ac f8bc743 669f285 a7275ea (recorded in known_findings.json).",
+        "notes": "All checks are bounded exhaustive explorations of the real code (see DESIGN.md). Each also contains a few fixed inputs that no small-shape enumeration reaches (one deep chain and one wide node per property, positional calls in the released parameter order); these few dozen evaluations are listed separately in the evidence counters (capacity_checks, deep_chain_*, positional_calls). A run whose state discovery hits its size cap is reported as a harness error, never as exhaustive. fix: commits in /repo: bf565aa 12814cc f767247 ef920f5 5a914b0 190c402 6a388ac f8bc743 669f285 a7275ea 0c4c0a4 b225706 (recorded in known_findings.json).",
     }
     with open(os.path.join(here, "MANIFEST.json"), "w") as f:
         json.dump(m, f, indent=1)
